@@ -184,7 +184,9 @@ Definition good_vote (cfg : config) (u : upd) (r : root) (it : item) : option no
              N.eqb (ob_digest ob) (c_digest cfg) &&
              edv_c (hn_key hn) ob sg &&
              existsb (fun lu =>
-               option_eqb (pair_eqb N.eqb N.eqb) (lu_src lu) (Some (u_chain u, lr_onramp (u_req u))) &&
+               (* the lane source is exactly the requested lane: selector AND on-ramp address, the latter by the code's
+                  rule — byte-equal to the last 20 bytes of the requested address *)
+               option_eqb (pair_eqb N.eqb addr_eqb) (lu_src lu) (Some (u_chain u, exp_onramp (u_req u))) &&
                option_eqb (pair_eqb N.eqb N.eqb) (lu_itv lu) (Some (lr_min (u_req u), lr_max (u_req u))) &&
                match lu_root lu with R32 r' => N.eqb r' r | _ => false end) (ob_lus ob)
           then Some n else None
